@@ -7,7 +7,7 @@
    identifiers and only resolving references is not proved yet - it is tied by the cell-exact correspondence and
    evaluated on the implementation's tables on every run. *)
 From Coq Require Import List Arith.
-From IGP Require Import Base.Str Base.Outcome Model.Tree Model.Link Model.Tabular Proofs.ItoaProof Proofs.IdProof.
+From IGP Require Import Base.Str Base.Outcome Model.Tree Model.Link Model.Tabular Proofs.ItoaProof Proofs.IdProof Proofs.RowIds Gen.Wiring.
 Import ListNotations.
 
 (* atomic statements id.1, id.2, ...: different numbers give different identifiers, whatever the user-supplied id *)
@@ -48,6 +48,14 @@ Print Assumptions C06_registry_only_grows.
 Theorem C06_itoa_injective : forall a b : nat, itoa_nat a = itoa_nat b -> a = b.
 Proof. exact itoa_nat_injective. Qed.
 Print Assumptions C06_itoa_injective.
+
+(* the identifier cells of the own rows of a statement, as the row loop of the exporter writes them: id.1 ... id.N, no
+   identifier twice (components named like the identifier column excluded) *)
+Theorem C06_own_row_ids_distinct : forall C s anno sl rows lms reg sid out reg', Forall (Forall lref_safe) rows ->
+  rows_loop tab_T C s anno sl rows lms true 0 reg sid [] = Ok (out, reg') ->
+  NoDup (map (fun r => rget r K_ID) out).
+Proof. intros C s anno sl rows lms reg sid out reg' Hs H. exact (proj2 (own_row_ids_distinct tab_T C s anno sl rows lms reg sid out reg' Hs H)). Qed.
+Print Assumptions C06_own_row_ids_distinct.
 
 Example C06_example :
   let r0 := new_nested_id [] (KComp FCacC [false]) (Leaf meta0 ENil []) $"7.1" in
